@@ -88,6 +88,7 @@ bool Logic::isBuiltinFunction(SymRef const sr) const {
         sr == sym_EQ || sr == sym_IMPLIES || sr == sym_DISTINCT || sr == sym_ITE)
         return true;
     if (isEquality(sr) || isDisequality(sr)) return true;
+    if (isIte(sr) || isArrayStore(sr) || isArraySelect(sr)) return true;
     return false;
 }
 
